@@ -121,3 +121,28 @@ class TempDirs:
         for d in self.dirs:
             shutil.rmtree(d, ignore_errors=True)
         self.dirs = []
+
+
+import contextlib
+
+
+@contextlib.contextmanager
+def slow_commits(delay=0.25):
+    """Replay schedule 'slow disk': the background commit of every real Orbax async save is delayed, so that the
+    next sweep(s) finish while the previous write is still in flight (the schedule the model's pending save stands for)."""
+    import time
+    from orbax.checkpoint._src.checkpointers import async_checkpointer as ac
+    orig = ac.AsyncCheckpointer._make_on_commit_callback
+
+    def make(self, *a, **kw):
+        cb = orig(self, *a, **kw)
+
+        def slow():
+            time.sleep(delay)
+            return cb()
+        return slow
+    ac.AsyncCheckpointer._make_on_commit_callback = make
+    try:
+        yield
+    finally:
+        ac.AsyncCheckpointer._make_on_commit_callback = orig
